@@ -597,7 +597,7 @@ def run(ctx):
         'with xtra, byte parts), plus a real zmq inproc PAIR for a sample; sockets, ids and the request protocol are '
         'C01-C07\'s business',
     ]
-    n_self = selftest()
+    n_self = rep.selftest(selftest)
     cfg = 'Codec_quick' if ctx.quick else 'Codec_thorough'
     res, data = tlc_emit_json(SPEC_DIR, cfg, module='Codec', timeout=3000)
     tlc_must_pass(res, cfg)
